@@ -29,6 +29,11 @@ func zoneTable(loc *time.Location, a, b int64) []interval {
 		if !end.IsZero() && end.Unix() <= b {
 			to = end.Unix()
 			last = false
+			if to <= cur {
+				// the runtime's rule-based zone end can coincide with its own start (seen at the end of the
+				// leap year 2040: the offset is the same on both sides); step over it, equal offsets merge below
+				to = cur + 86400
+			}
 		}
 		if n := len(out); n > 0 && out[n-1].Off == off {
 			out[n-1].To = to - e2000
@@ -48,7 +53,13 @@ type transition struct {
 	After  int
 }
 
-// class names a transition: gap/overlap, size, wall-clock time (before the change) at which it happens.
+// class names a transition: gap/overlap, size, wall-clock time (before the change) at which it happens,
+// and the side of Greenwich (time.Date resolves a non-existent wall-clock time differently east and west).
+func (tr transition) onTheHour() bool {
+	w := (tr.At + int64(tr.Before)) % 3600
+	return w == 0
+}
+
 func (tr transition) class() string {
 	shift := tr.After - tr.Before
 	kind := "gap"
@@ -64,7 +75,18 @@ func (tr transition) class() string {
 	if w < 0 {
 		w += 86400
 	}
-	return fmt.Sprintf("%s%s@%02d:%02d", kind, size, w/3600, w%3600/60)
+	side := "east"
+	if tr.Before < 0 {
+		side = "west"
+	}
+	return fmt.Sprintf("%s%s@%02d:%02d:%s", kind, size, w/3600, w%3600/60, side)
+}
+
+// atMidnight: the wall clock reads 00:00 just before or just after the change.
+func (tr transition) atMidnight() bool {
+	b := (tr.At + int64(tr.Before)) % 86400
+	a := (tr.At + int64(tr.After)) % 86400
+	return b == 0 || a == 0
 }
 
 func transitionsOf(zt []interval) []transition {
